@@ -106,3 +106,20 @@ package gnmi
 //@   ensures {C19} subscribe-reaches-every-named-target: err == nil && isSubscribeMsg(req) ==> (forall t string :: (t in sctx.treqs) ==> targetLookups[t]) && pollCalls == old(pollCalls)
 //@   loop 1 invariant sctx.treqs != nil && pollCalls == old(pollCalls) && (forall t string :: visited(1)[t] ==> targetLookups[t]) && (forall t string :: targetLookups[t] ==> (t in sctx.treqs))
 //@   loop 2 invariant sctx.treqs == old(sctx.treqs) && sctx.req == old(sctx.req) && sbSubscribeCalls == old(sbSubscribeCalls) && (forall t string :: visited(2)[t] ==> targetLookups[t]) && (forall t string :: targetLookups[t] ==> (t in sctx.treqs))
+
+// no-panic sweep (C12) of the pure request-processing helpers of the Set/Get/Subscribe handlers
+//@ func computeChange(target) (change, err)
+//@   props C12, C03
+//@   safe
+//@   requires target != nil && (forall k string :: (k in target.updates) ==> target.updates[k] != nil)
+//@   ensures {C12,C03} change-values-are-never-nil: err == nil ==> change != nil && (forall k string :: (k in change.Values) ==> change.Values[k] != nil)
+//@   loop 1 invariant newChanges != nil && (forall k string :: (k in newChanges) ==> newChanges[k] != nil)
+//@   loop 2 invariant newChanges != nil && (forall k string :: (k in newChanges) ==> newChanges[k] != nil)
+//@ func copyPrefix(prefix, target) (r)
+//@   props C12, C19
+//@   safe
+//@   modifies nothing
+//@   ensures r != nil && r.Target == target
+//@ func newUpdateResult(pathStr, target, op) (r, err)
+//@   props C12
+//@   safe
